@@ -726,7 +726,10 @@ def combine_chunk_results_for_factorized_key(
 
     for chunk, count in zip(chunks[1:], counts[1:]):
         combined = reduce_array_pair(
-            combined, chunk, getattr(ScalarFuncs, reduce_func_name)
+            combined,
+            chunk,
+            getattr(ScalarFuncs, reduce_func_name),
+            counts=combined_count if isinstance(combined_count, np.ndarray) else None,
         )
         combined_count = combined_count + count
 
